@@ -175,13 +175,14 @@ type Env struct {
 	curFrame  *Frame
 	callSiteHits map[string]int
 	clauseErrs []string
+	maybeNilIface map[string]bool
 }
 
 func newEnv(p *Program, cx *Contracts, cfg *PropConfig) *Env {
 	d := newDecls()
 	return &Env{P: p, D: d, S: newSorter(d), Cx: cx, cfg: cfg, maxPaths: 20000,
 		trusted: map[string]int{}, dropped: map[string]int{}, inlined: map[string]int{}, havocked: map[string]int{}, notes: map[string]int{},
-		splitInfo: map[string]*splitRec{}, termFacts: map[string][]string{}, nonNil: map[string]bool{}, callSiteHits: map[string]int{}, keyTerms: map[string][]Seg{}, shapes: map[string]string{}, noContract: map[*ssa.Function]bool{}}
+		splitInfo: map[string]*splitRec{}, termFacts: map[string][]string{}, nonNil: map[string]bool{}, maybeNilIface: map[string]bool{}, callSiteHits: map[string]int{}, keyTerms: map[string][]Seg{}, shapes: map[string]string{}, noContract: map[*ssa.Function]bool{}}
 }
 
 func (e *Env) fail(format string, a ...interface{}) {
